@@ -48,6 +48,10 @@ pub fn alphabet() -> Vec<(&'static str, String)> {
         ("ws", "\r\n"),
         ("comment", "// c\n"),
         ("comment", "/* c */"),
+        ("comment", "/* a /* n */ b */"),
+        ("comment", "/* a /*/ b */ c */"),
+        ("comment", "/*/ c */"),
+        ("comment", "/* c **/"),
         ("pp", "#ifdef X\n"),
         ("pp", "#ifndef X\n"),
         ("pp", "#define X\n"),
